@@ -659,7 +659,7 @@ func (E *Engine) solveOne(r *FuncResult, o *Obligation, dir string, sem chan str
 		var again []string
 		sawSat := false
 		for _, res := range all {
-			if res.Status == "timeout" && (res.Solver == "z3-new" || res.Solver == "z3-ematch" || res.Solver == "z3-new-noext") {
+			if res.Status == "timeout" && (res.Solver == "z3-new" || res.Solver == "z3-ematch" || res.Solver == "z3-new-noext" || res.Solver == "z3-new-mbqi") {
 				again = append(again, res.Solver)
 			}
 			if res.Status == "sat" {
